@@ -83,6 +83,42 @@ def check_affine(x, problems, cond):
             problems.append(("center-scale", f"{name}: re-applying to the training data gives another result"))
 
 
+def check_int_dtypes(x, problems, acc):
+    """Whole-number data stored in an integer dtype (training column or later frame) gives what the same numbers give as floats."""
+    if not np.all(x == np.round(x)) or np.abs(x).max() > 2 ** 30:
+        return
+    dtypes = ["int64", "int32"] + (["int16", "int8"] if np.abs(x).max() < 100 else []) + (["uint8"] if x.min() >= 0 and x.max() < 200 else [])
+    lo, hi = int(x.min()), int(x.max())
+    grid = np.arange(lo, hi + 1)
+    calls = [("center", {}), ("scale", {}), ("poly", {"degree": 2}), ("bs", {"df": 4}), ("bs", {"df": 3, "degree": 2}), ("bs", {"df": 5, "intercept": True})]
+    for name, kw in calls:
+        try:
+            t0 = T(name)
+            ref = np.asarray(t0(x, **kw), dtype=float)
+            ref_grid = np.asarray(t0(grid.astype(float), **kw), dtype=float)
+        except Exception:
+            continue  # what this vector allows is decided by the float clauses
+        for dt in dtypes:
+            acc.calls += 2
+            try:
+                t = T(name)
+                got = np.asarray(t(x.astype(dt), **kw), dtype=float)
+                got_grid = np.asarray(t(grid.astype(dt), **kw), dtype=float)
+                t2 = T(name)
+                t2(x, **kw)
+                later = np.asarray(t2(grid.astype(dt), **kw), dtype=float)
+            except Exception as e:
+                problems.append(("integer-dtype", f"{name}{kw} on the same numbers stored as {dt} raised {type(e).__name__}: {e}"))
+                break
+            for what, a, b in (("training values", ref, got), ("later grid after integer training", ref_grid, got_grid), ("later integer grid after float training", ref_grid, later)):
+                if a.shape != b.shape or not np.allclose(a, b, rtol=1e-9, atol=1e-12, equal_nan=True):
+                    problems.append(("integer-dtype", f"{name}{kw}: {what} differ when the numbers are stored as {dt} instead of float64"))
+                    break
+            else:
+                continue
+            break
+
+
 def bs_expected_cols(df, knots, degree, intercept):
     if df is not None:
         return df
@@ -270,6 +306,7 @@ def check_design(case, acc):
         return v - 1000.0
 
     scale = center  # noqa: F841
+    kn = [1.5]  # noqa: F841  (the formulas refer to it)
     for f in ("y ~ center(x)", "y ~ scale(x)", "y ~ standardize(x) + (center(x)|g)"):
         acc.calls += 1
         dm = design_matrices(f, df)
@@ -291,17 +328,22 @@ def check_design(case, acc):
     # histories on one design: good frames, frames the evaluation refuses (column missing / not numeric), training rows again;
     # common and group-specific matrices, every stateful transform
     for f in ("y ~ center(x) + scale(x)", "y ~ 1 + (0 + center(x) | g)", "y ~ (scale(x) | g)", "y ~ x + (standardize(x) | g)",
-              "y ~ poly(x, 2)", "y ~ bs(x, df=4)", "y ~ (0 + poly(x, 2) | g)", "y ~ (0 + bs(x, df=3) | g) + center(x)"):
+              "y ~ poly(x, 2)", "y ~ bs(x, df=4)", "y ~ (0 + poly(x, 2) | g)", "y ~ (0 + bs(x, df=3) | g) + center(x)",
+              "y ~ poly(x, degree=2)", "y ~ poly(x, 2, raw=True)", "y ~ poly(x, degree=3, raw=True) + (0 + poly(x, degree=2) | g)", "y ~ bs(x, degree=2, df=4)", "y ~ bs(x, knots=kn, intercept=True)",
+              "y ~ (poly(x, raw=True, degree=2) | g)"):
         acc.calls += 1
         dm = design_matrices(f, df)
         mats = [(w, M, np.array(M.design_matrix, dtype=float, copy=True)) for w, M in (("common", dm.common), ("group", dm.group)) if M is not None]
         m, s = x.mean(), x.std()
-        events = [("good", [10.0, -3.0]), ("rows", [4, 1]), ("missing", None), ("rows", [0, 5, 2]), ("good", [0.5, 7.0]), ("text", None), ("rows", [3, 3]), ("good", [2.0, 2.0])]
+        events = [("ints", [0, 1, 2, 3]), ("good", [10.0, -3.0]), ("rows", [4, 1]), ("missing", None), ("rows", [0, 5, 2]), ("good", [0.5, 7.0]), ("text", None), ("rows", [3, 3]), ("good", [2.0, 2.0])]
         for step, (kind, arg) in enumerate(events):
             if kind == "good":
                 nd = pd.DataFrame({"y": [0.0, 0.0], "x": arg, "g": ["a", "b"]})
             elif kind == "rows":
                 nd = df.iloc[arg].reset_index(drop=True)
+            elif kind == "ints":  # the same numbers in an integer-typed later frame
+                nd = df.iloc[arg].reset_index(drop=True)
+                nd["x"] = nd["x"].astype("int64")
             elif kind == "missing":
                 nd = pd.DataFrame({"y": [0.0, 0.0], "g": ["a", "b"]})
             else:
@@ -316,7 +358,7 @@ def check_design(case, acc):
                     continue
                 got = np.asarray(r.design_matrix, dtype=float)
                 msg = None
-                if kind == "rows":
+                if kind in ("rows", "ints"):
                     if got.shape != train[arg].shape or not np.allclose(got, train[arg], rtol=1e-9, atol=1e-12):
                         msg = f"training rows {arg} are not reproduced"
                 else:
@@ -359,6 +401,7 @@ def check_case(case, acc):
     check_affine(x, problems, cond)
     check_bs(x, problems, acc, cond)
     check_poly(x, problems, acc, cond)
+    check_int_dtypes(x, problems, acc)
     if problems:
         acc.case(case, "MISMATCH", sample=False)
         seen = set()
